@@ -84,7 +84,7 @@ static Json spec_to_json(const RunSpec& s, const std::vector<uint64_t>* dsteps, 
   Json j = Json::obj();
   j.set("world", Json::str(s.world)).set("variant", Json::inum(s.variant)).set("run_seed", Json::num(s.run_seed)).set("thorough", Json::inum(s.thorough));
   j.set("maskA", Json::str(mask_names[s.maskA])).set("maskB", Json::str(mask_names[s.maskB])).set("warm", Json::inum(s.warm)).set("mem_salt", Json::num(s.mem_salt));
-  j.set("flavour", Json::str(SIM_FLAVOUR == SIM_TSAN ? "tsan" : SIM_FLAVOUR == SIM_ASAN ? "asan" : "plain"));
+  j.set("flavour", Json::str(SIM_FLAVOUR == SIM_TSAN ? "tsan" : SIM_FLAVOUR == SIM_ASAN ? "asan" : sim_drd_mode() ? "drd" : "plain"));
   Json sc = Json::obj();
   // a replay file always carries the explicit decisions, never the PRNG-driven policy
   bool have = dsteps && dtasks;
@@ -265,6 +265,7 @@ static RunSpec derive_spec(const std::string& world, int variant, uint64_t run_s
     } else {
       s.policy = SIM_POL_SERIAL;
     }
+    g.column_groups = rc.chance(40, 100);
     static const uint32_t wp[] = {50, 70, 85, 95};
     s.window_pct = wp[rc.below(4)];
     if (rc.chance(3, 100)) {
@@ -282,6 +283,17 @@ static RunSpec derive_spec(const std::string& world, int variant, uint64_t run_s
       g.min_calls = 1;
       g.max_calls = 3;
       g.table_ops = g.simple_ops = g.q120 = false;
+    }
+    if (variant == 1) {
+      // column-split world: threads produce byte-adjacent columns of one block with the vector-output entry points
+      g.column_groups = g.column_world = true;
+      g.simple_storm = g.large_world = false;
+      g.module_ops = true;
+      g.table_ops = g.simple_ops = g.q120 = g.life_ops = false;
+      g.ntasks = 2 + (int)rc.below(5);
+      g.min_calls = 1;
+      g.max_calls = 4;
+      g.big_n_pct = 0;
     }
   }
   g.ntt120 = (s.maskA == MASK_ALL || s.maskA == MASK_AVX2) && (world != "c07" || ((s.maskB == MASK_ALL || s.maskB == MASK_AVX2)));
@@ -760,6 +772,7 @@ static void run_c12(const RunSpec& s, RunResult& R) {
   // shared objects are immutable from here on
   for (size_t i = 0; i < s.P.slots.size(); ++i)
     if (setup.ptr[i]) sim_freeze(setup.ptr[i]);
+  setup.place_groups();  // columns of one block, produced by different tasks: writable, never frozen
 
   std::vector<Exec*> cx(T, nullptr), sx(T, nullptr);
   sim_sched_stats st;
@@ -820,7 +833,8 @@ static void run_c12(const RunSpec& s, RunResult& R) {
     R.task_hash_serial.push_back(exec_trace_hash(*sx[t], t));
   }
   for (size_t i = 0; i < s.P.slots.size(); ++i)
-    if (setup.ptr[i]) sim_unfreeze(setup.ptr[i]);
+    if (setup.ptr[i] && s.P.slots[i].group < 0) sim_unfreeze(setup.ptr[i]);
+  R.stats.set("column_group_slots", Json::num(setup.n_group_slots));
   for (int t = 0; t < T; ++t) {
     if (cx[t]) {
       cx[t]->release_all();
@@ -917,6 +931,77 @@ static std::string read_file(const std::string& path) {
   return ss.str();
 }
 
+// DRD ride-along (plain flavour under `valgrind --tool=drd`): conflicting accesses made inside library calls to
+// caller-owned operand memory, at every access width and in the assembly kernels. Conflicts on the library's own
+// static or heap data are left to the ThreadSanitizer worlds (DRD does not understand C11 acquire/release, so a
+// correctly synchronised lazy initialisation would look like a race to it).
+static void drd_collect(RunResult& R, int fd) {
+  const unsigned nerr = sim_drd_error_count();
+  R.stats.set("drd_reports_total", Json::num(nerr));
+  const char* dir = getenv("SIM_DRD_LOGDIR");
+  if (!dir) return;
+  std::string path = std::string(dir) + "/" + std::to_string((long)getpid()) + ".log";
+  uint64_t on_operands = 0;
+  if (nerr) {
+    std::ifstream f(path);
+    std::string l, acc, size;
+    uint64_t addr = 0;
+    bool in_stack = false;
+    std::vector<std::pair<std::string, std::string>> frames;  // (function, file:line), innermost first
+    std::vector<std::string> seen;
+    auto finish = [&]() {
+      if (!in_stack) return;
+      in_stack = false;
+      uint64_t off = 0, bsize = 0;
+      int is_lib = 0, owner = 0;
+      if (sim_describe((void*)addr, &off, &bsize, &is_lib, &owner) < 0 || is_lib || frames.empty()) return;
+      // name the library function, not the intrinsic or libc routine inlined into / called from it
+      size_t k = 0;
+      while (k + 1 < frames.size() && (frames[k].first.compare(0, 3, "_mm") == 0 || frames[k].first.compare(0, 3, "mem") == 0 || frames[k].first.compare(0, 2, "__") == 0)) k++;
+      const std::string fn = frames[k].first, loc = frames[k].second;
+      on_operands++;
+      std::string key = fn;
+      if (std::find(seen.begin(), seen.end(), key) != seen.end() || seen.size() >= 4) return;
+      seen.push_back(key);
+      std::string ev = "DRDREP acc=" + acc + " size=" + size + " fn=" + fn + " loc=" + loc + " owner=" + std::to_string(owner) + "\n";
+      (void)!write(fd, ev.data(), ev.size());
+      R.status = "violation";
+      R.mix(hash_bytes(key.data(), key.size()));
+    };
+    while (std::getline(f, l)) {
+      size_t p = l.find("Conflicting ");
+      if (p != std::string::npos) {
+        finish();
+        std::istringstream is(l.substr(p + 12));
+        std::string by, thread, tid, at, a, sz;
+        is >> acc >> by >> thread >> tid >> at >> a >> sz >> size;
+        addr = strtoull(a.c_str(), nullptr, 16);
+        in_stack = true;
+        frames.clear();
+        continue;
+      }
+      if (!in_stack) continue;
+      p = l.find("   at 0x");
+      if (p == std::string::npos) p = l.find("   by 0x");
+      if (p == std::string::npos) {
+        finish();
+        continue;
+      }
+      size_t c = l.find(": ", p);
+      std::string rest = c == std::string::npos ? "?" : l.substr(c + 2);  // fn (file:line)
+      std::string fn = rest.substr(0, rest.find(' '));
+      size_t lp = rest.rfind('('), rp = rest.rfind(')');
+      std::string loc = lp != std::string::npos && rp != std::string::npos && rp > lp ? rest.substr(lp + 1, rp - lp - 1) : "?";
+      for (auto& ch : loc)
+        if (ch == ' ') ch = '_';
+      if (frames.size() < 6) frames.push_back({fn, loc});
+    }
+    finish();
+  }
+  R.stats.set("drd_reports_on_operands", Json::num(on_operands));
+  unlink(path.c_str());
+}
+
 // runs one world in this process and writes the result line to fd
 static int child_run(const RunSpec& s, long idx, int fd, const char* dump_path) {
   sim_fctx.result_fd = fd;
@@ -937,7 +1022,9 @@ static int child_run(const RunSpec& s, long idx, int fd, const char* dump_path) 
     }
   }
   RunResult R;
+  sim_drd_thread_init();
   execute(s, R);
+  if (sim_drd_mode()) drd_collect(R, fd);
   std::string line = "RESULT " + result_json(s, R, idx) + "\n";
   (void)!write(fd, line.data(), line.size());
   if (dump_path) {
